@@ -629,6 +629,13 @@ func c20JudgeChain(c c20Reporter, s c20ChainScenario, out string, err error) {
 			if bw == "edt" && !s.EDT {
 				c.Fatalf("bandwidth_mode edt on a kernel without EDT support: %s", out)
 			}
+			// "supported" is per generated chain: EDT shaping is carried out by the eBPF datapath
+			// (ipvlan / datapath v2 with the chainer); with plain veth the plugin shapes with tc
+			// qdiscs itself and installs nothing in edt mode (PolicyRoute.Setup skips SetupTC), so
+			// edt on a veth chain means the pod's bandwidth limits are silently not enforced
+			if bw == "edt" && v == dataPathVeth {
+				c.Fatalf("bandwidth_mode edt with eniip_virtual_type veth (no eBPF datapath to run the EDT shaper; supported on such a chain: tc): %s", out)
+			}
 			c.Label("selected:" + selected + "/" + bw)
 		} else {
 			// without eBPF only veth (the plugin's default) and tc (its default) are supported
